@@ -628,44 +628,3 @@ fn c16_total_end_postamble() {
 fn c16_total_rule_forms() {
     decode_total::<10>(132, 132, 8);
 }
-
-/// xxx2: a payload of exactly 256 bytes (concrete zeros except the first and last byte, which are
-/// symbolic) needs the two-byte length form. Lengths 257..65535 and xxx3/xxx4 stay outside.
-#[kani::proof]
-#[kani::unwind(270)]
-fn c16_rt_extension_256() {
-    let (first, last): (u8, u8) = kani::any();
-    let mut v: Vec<u8> = vec![0u8; 256];
-    v[0] = first;
-    v[255] = last;
-    let op = Op::Extension(v);
-    let mut b: Vec<u8> = Vec::with_capacity(264);
-    op.serialize(&mut b);
-    assert!(b.len() == 259, "xxx2: opcode, two length bytes, 256 payload bytes");
-    assert!(b[0] == 240 && b[1] == 1 && b[2] == 0);
-    let mut arr = [0u8; 262];
-    let mut k = 0;
-    while k < 259 {
-        arr[k] = b[k];
-        k += 1;
-    }
-    arr[259] = kani::any();
-    arr[0] = 240;
-    arr[1] = 1;
-    arr[2] = 0;
-    match Op::deserialize(&arr[..]) {
-        Ok(Some((op2, tail))) => {
-            assert!(tail.len() == 3, "decoder consumed exactly the encoding");
-            match &op2 {
-                Op::Extension(w) => assert!(w.len() == 256 && w[0] == first && w[255] == last && w[100] == 0),
-                _ => panic!("decoded to a different operation"),
-            }
-            std::mem::forget(op2);
-        }
-        _ => panic!("encoding does not decode"),
-    }
-    std::mem::forget(op);
-    std::mem::forget(b);
-    kani::cover!(first == 223 && last == 1, "payload bytes that look like padding");
-    kani::cover!(first == 0, "zero first byte");
-}
